@@ -3,16 +3,16 @@ package main
 func init() {
 	checks["C21"] = &checkDef{
 		Level:       levelOther,
-		Explanation: "Real routing code with stub connections that log what they receive: standalone.Do/DoMulti/DoStream/DoMultiStream/Receive/pick (primary + 1..2 replicas, optional node selector), sentinelClient.Do/DoMulti/DoMultiCache with pick/pickMulti/sendAllToReplica(Cache) (ReplicaOnly or not), clusterClient.Do/_pick with and without a replica slot table, and the placement of cluster batches by _pickMulti (DoMulti) and _pickMultiCache (DoMultiCache) over two slots with their own primary and replica, for both forms of the replica table that _refresh builds (all nodes when a ReadNodeSelector is set, else the single pre-selected node): every command is placed exactly once, on a replica only when the predicate opts that command in, otherwise on its slot's primary. The caller's SendToReplicas predicate answers a symbolic bool per command, selector functions return a symbolic int (also outside the candidate list); batches of 1..3 commands. Oracle: the whole call lands on exactly one node; that node is a replica only if the predicate is set and true for every command of the call (or the client is ReplicaOnly); a ReplicaOnly sentinel client never uses the master; a selector answer outside the candidate list (or naming index 0) means the primary.",
+		Explanation: "Real routing code with stub connections that log what they receive: standalone.Do/DoMulti/DoStream/DoMultiStream/Receive/pick (primary + 1..2 replicas, optional node selector), sentinelClient.Do/DoMulti/DoMultiCache/DoStream/DoMultiStream/Receive with pick/pickMulti/sendAllToReplica(Cache) (ReplicaOnly or not), clusterClient.Do/_pick with and without a replica slot table, and the placement of cluster batches by _pickMulti (DoMulti) and _pickMultiCache (DoMultiCache) over two slots with their own primary and replica, for both forms of the replica table that _refresh builds (all nodes when a ReadNodeSelector is set, else the single pre-selected node): every command is placed exactly once, on a replica only when the predicate opts that command in, otherwise on its slot's primary. The caller's SendToReplicas predicate answers a symbolic bool per command, selector functions return a symbolic int (also outside the candidate list); batches of 1..3 commands. Oracle: the whole call lands on exactly one node; that node is a replica only if the predicate is set and true for every command of the call (or the client is ReplicaOnly); a ReplicaOnly sentinel client never uses the master; a selector answer outside the candidate list (or naming index 0) means the primary.",
 		Assumptions: []string{"stub connections; math/rand IntN for unselected replicas is a decision over the replica indexes"},
-		Outside:     []string{"DoStream/DoMultiStream/Receive routing of sentinel and cluster clients", "the replica slot table built by _refresh with ReplicaSelector / ReadNodeSelector / ReplicaOnly"},
+		Outside:     []string{"DoStream/DoMultiStream/Receive routing of cluster clients", "the replica slot table built by _refresh with ReplicaSelector / ReadNodeSelector / ReplicaOnly"},
 		Bounds:      map[string]any{"quick": "batches of 1..3 commands, 1..2 replicas, selector answers in [-2,4]", "thorough": "same"},
 		specs: func(tier string) []specRef {
 			c := hsx(rootPkg, "VerifC21_cluster", nil, 100000, 900, "replica", "primary", "fallback")
 			c.spec.Overrides = clusterOverrides
 			return []specRef{
 				hsx(rootPkg, "VerifC21_standalone", P{"max_batch": 3}, 100000, 900, "replica", "primary", "fallback", "stream", "receive", "multistream"),
-				hsx(rootPkg, "VerifC21_sentinel", P{"max_batch": 3}, 100000, 900, "replica", "master"),
+				hsx(rootPkg, "VerifC21_sentinel", P{"max_batch": 3}, 100000, 900, "replica", "master", "stream", "receive", "multistream"),
 				c,
 				hsx(rootPkg, "VerifC21_clusterMulti", P{"max_batch": 3}, 1000000, 900, "multi", "multicache"),
 			}
